@@ -1051,6 +1051,49 @@ def generate_spline(repo=None):
             "Section GenSpline.\nContext {F : Type} {OF : Ops F}.\n\n" % hashlib.sha256(src.encode()).hexdigest()[:16]) + body + "\nEnd GenSpline.\n"
 
 
+# ------------------------------------------------------------------ free horizon: what a FreeTime declaration turns into
+def translate_freetime(tree):
+    """DirectMethod.fill_placeholders_T / fill_placeholders_t0 (phase 1): a FreeTime horizon becomes a stage variable with the
+    declared guess; T gets the row T >= 0, t0 gets no row; any other horizon is passed through unchanged"""
+    out = {}
+    for name, attr, setter in (("fill_placeholders_T", "_T", "set_T"), ("fill_placeholders_t0", "_t0", "set_t0")):
+        fn = _find_method(tree, "DirectMethod", name)
+        top = [s_ for s_ in fn.body if not (isinstance(s_, ast.Expr) and isinstance(s_.value, ast.Constant))]
+        if not (len(top) == 2 and isinstance(top[0], ast.If) and ast.unparse(top[0].test) == "phase == 1"
+                and ast.unparse(top[1]) == "return self.eval(stage, expr)"):
+            _fail(fn, name)
+        inner = top[0].body
+        if not (len(inner) == 1 and isinstance(inner[0], ast.If) and ast.unparse(inner[0].test) == "isinstance(stage.%s, FreeTime)" % attr
+                and [ast.unparse(x) for x in inner[0].orelse] == ["return stage.%s" % attr]):
+            _fail(fn, name + ": FreeTime branch")
+        body = [ast.unparse(x) for x in inner[0].body]
+        want_head = ["init = stage.%s.T_init" % attr, "stage.%s(stage.variable())" % setter]
+        want_tail = ["stage.set_initial(stage.%s, init, priority=True)" % attr, "return stage.%s" % attr]
+        if body[:2] != want_head or body[-2:] != want_tail:
+            raise Untranslatable("%s: FreeTime branch %r" % (name, body))
+        rows = body[2:-2]
+        out[name] = rows
+    rowsT, rowst0 = out["fill_placeholders_T"], out["fill_placeholders_t0"]
+    if rowsT != ["stage.subject_to(stage._T >= 0)"]:
+        raise Untranslatable("fill_placeholders_T: rows added for a free horizon: %r (expected exactly T >= 0)" % rowsT)
+    if rowst0 != []:
+        raise Untranslatable("fill_placeholders_t0: rows added for a free start time: %r (expected none)" % rowst0)
+    return ("(* rows a FreeTime declaration adds to the NLP: for T the single row 0 - T <= 0, for t0 none; the new variable starts at the\n"
+            "   declared guess (set_initial with priority) *)\n"
+            "Definition gen_freeT_row (T : F) : list (row F) := [mkRow KFreeT 0 0 SLe (o0 -! T)].\n"
+            "Definition gen_freet0_row (t0 : F) : list (row F) := [].\n"
+            "Definition gen_free_guess (declared : Q) : F := of_Q declared.\n")
+
+
+def generate_freetime(repo=None):
+    repo = repo or REPO
+    src = open(os.path.join(repo, "rockit", "direct_method.py")).read()
+    body = translate_freetime(ast.parse(src))
+    return ("(* GENERATED on every run by harness/translate.py from rockit/direct_method.py (sha256 %s).  Do not edit. *)\n"
+            "From Coq Require Import ZArith QArith List.\nFrom RV Require Import Base.Num Base.Vec Expr Ocp Rows.\nImport ListNotations.\n\n"
+            "Section GenFree.\nContext {F : Type} {OF : Ops F}.\n\n" % hashlib.sha256(src.encode()).hexdigest()[:16]) + body + "\nEnd GenFree.\n"
+
+
 HEADER = """(* GENERATED on every run by harness/translate.py from %s (sha256 %s).
    Do not edit: the file is rewritten from the working tree before Tie/IntgTie.v is checked. *)
 From Coq Require Import ZArith QArith List.
@@ -1114,6 +1157,7 @@ TIES = {
     "Shoot": (generate_shoot, "ShootGen.v", "ShootTie.v"),
     "Layout": (generate_layout, "LayoutGen.v", "LayoutTie.v"),
     "Spline": (generate_spline, "SplineGen.v", "SplineTie.v"),
+    "Free": (generate_freetime, "FreeGen.v", "FreeTie.v"),
 }
 
 
